@@ -552,7 +552,16 @@ def r_rt_loop(e, R):
                 f"the tracker closes / overwrites descriptor {norm(tgt_arg)} by number: its command pipe `{fdp}` is simply the lowest descriptor that was free in the "
                 "process that launched it (0 or 1 when that process runs with stdin/stdout closed), so the tracker reads EOF at once, sweeps everything and exits "
                 "while its tree is alive; every later request relaunches another short-lived tracker", e.loc(f, c))
-    R.floor("R-RT-LOOP", 8)
+    # request names are plain strings that the tracker itself hands to os.unlink / shutil.rmtree / sem_unlink: a relative name means
+    # "relative to the directory the tree was started in", which is the tracker's working directory as long as it never changes it
+    moved = [(fn_, c) for q in sorted(e.reach([f.qualname])) if q in e.prog.funcs for fn_ in [e.prog.funcs[q]] if fn_.module.name.startswith("loky")
+             for c in func_nodes(fn_) if isinstance(c, ast.Call) and norm(c.func) in ("os.chdir", "os.fchdir", "os.chroot")]
+    R.check(not moved, "R-RT-LOOP", "the tracker process never changes its working directory (relative resource names keep their meaning)", f.short,
+            "no os.chdir / os.fchdir / os.chroot reachable from main", (f"`{norm(moved[0][1])[:50]}` in {moved[0][0].short}: the tracker resolves the names it is sent "
+            "itself; after changing directory a file / folder registered under a relative path is looked up elsewhere: it is not destroyed when its count "
+            "reaches zero nor at end of life (and a same-named entry under the new directory is destroyed instead)") if moved else "",
+            e.loc(moved[0][0], moved[0][1]) if moved else None)
+    R.floor("R-RT-LOOP", 9)
 
 
 BROAD = {None, "Exception", "BaseException"}
